@@ -106,17 +106,68 @@ def restoration_sites(py) -> List[Tuple[str, ast.AST, str]]:
     return out
 
 
+TABLE_ATTRS = {"attr_dict": "attribs", "param_dict": "initial"}      # per-scope tables and the entity attribute they end up in
+
+
+def restored_into(py, name: str, node: ast.AST) -> Set[str]:
+    """entity attributes that the restored text `name` (assigned at `node`) is stored in, read from the code after `node`:
+    `self.<a> = name`, stores into the per-scope tables, constructor arguments (by parameter name, also through a list that
+    is passed to the constructor), and the field of a returned record"""
+    fn = py.enclosing_function(node)
+    out: Set[str] = set()
+    t = node.targets[0] if isinstance(node, ast.Assign) else None
+    if isinstance(t, ast.Attribute) and isinstance(t.value, ast.Name) and t.value.id == "self":
+        return {t.attr}
+
+    def mentions(e) -> bool:
+        return any(isinstance(x, ast.Name) and x.id == name for x in ast.walk(e))
+    lists: Set[str] = set()
+    for st in list(ast.walk(fn)) * 2:          # twice: the lists found in the first pass are constructor arguments in the second
+        if getattr(st, "lineno", 0) < node.lineno:
+            continue
+        if isinstance(st, ast.Assign) and mentions(st.value):
+            for tg in st.targets:
+                if isinstance(tg, ast.Attribute) and isinstance(tg.value, ast.Name) and tg.value.id == "self":
+                    out.add(tg.attr)
+                if isinstance(tg, ast.Subscript):
+                    base = ast.unparse(tg.value).split(".")[-1]
+                    if base in TABLE_ATTRS:
+                        out.add(TABLE_ATTRS[base])
+        if isinstance(st, ast.Call) and isinstance(st.func, ast.Attribute) and st.func.attr in ("append", "extend") and \
+                any(mentions(a) for a in st.args):
+            recv = st.func.value
+            base = ast.unparse(recv.value if isinstance(recv, ast.Subscript) else recv).split(".")[-1]
+            if base in TABLE_ATTRS:
+                out.add(TABLE_ATTRS[base])
+            elif isinstance(recv, ast.Name):
+                lists.add(recv.id)
+        if isinstance(st, ast.Call) and isinstance(st.func, ast.Name) and st.func.id in py.classes:
+            init = py.resolve_method(st.func.id, "__init__")
+            if init is not None:
+                for pn, a in astq.bind_args(st, init[1], skip_self=True).items():
+                    if mentions(a) or any(isinstance(x, ast.Name) and x.id in lists for x in ast.walk(a)):
+                        out.add(pn)
+            else:       # dataclass-like record: keyword names are field names
+                for kw in st.keywords:
+                    if kw.arg and mentions(kw.value):
+                        out.add(kw.arg)
+    return out
+
+
 def r1_sources(ctx, rep):
     py = ctx.py
     sites = restoration_sites(py)
     if len(sites) < 3:
         raise AnalysisError("fewer than 3 literal re-insertion sites found in sourceform.py")
-    flow = {"initial": "initial", "bindC": "bindC", "attr": "attribs", "kind": "kind"}
     for name, node, q in sites:
-        if name not in flow:
-            raise AnalysisError(f"new literal re-insertion target `{name}` in {q}: review C18 SOURCES")
-        attr = flow[name]
-        ok = attr in SOURCES or attr in NON_SOURCES
+        attrs = restored_into(py, name, node)
+        if not attrs:
+            raise AnalysisError(f"literal re-insertion target `{name}` in {q}: the attribute it is stored in was not recognised")
+        unknown = sorted(a for a in attrs if a not in SOURCES and a not in NON_SOURCES)
+        if unknown:
+            raise AnalysisError(f"literal text is re-inserted into a new attribute {unknown} ({q}): review C18 SOURCES")
+        attr = sorted(attrs)[0]
+        ok = True
         rep.ob(f"restoration target={name} in {q}", ok,
                f"literal text is re-inserted into `{name}` -> attribute `{attr}` "
                f"({'tracked source' if attr in SOURCES else 'reviewed non-source: ' + NON_SOURCES.get(attr, '')})",
@@ -567,6 +618,83 @@ def r10_initial_value_is_whole(ctx, rep):
                    f"initial value `n`, and `n >= 3` as `n>`", py.nloc(single[0] if single else st), nontrivial=not ok)
     rep.ob("declarator / PARAMETER splits at `=` inspected", True, f"{n} multi-way split(s) at `=`", "ford/sourceform.py", nontrivial=False)
 
+
+def r11_displayed_text_is_unmasked(ctx, rep):
+    """Statements are parsed with their character literals replaced by index placeholders ("0", "1", ...).  Text that is cut
+    out of the masked statement and kept for display - the value of a PARAMETER statement item, an attribute of a declaration -
+    must have the literals put back before it is stored, like the initial value of a declaration has."""
+    py = ctx.py
+    sites = restoration_sites(py)
+    restored: Dict[str, List[Tuple[str, int]]] = {}
+    for name, node, q in sites:
+        restored.setdefault(q, []).append((name, node.lineno))
+
+    def closest_def(fn, name: str, at: int):
+        """the nearest preceding binding of a local name (assignment value, or the iterable of the loop that binds it)"""
+        best = None
+        for st in ast.walk(fn):
+            ln = getattr(st, "lineno", None)
+            if ln is None or ln >= at:
+                continue
+            v = None
+            if isinstance(st, ast.Assign) and any(isinstance(x, ast.Name) and x.id == name for t in st.targets for x in ast.walk(t)):
+                v = st.value
+            elif isinstance(st, ast.NamedExpr) and st.target.id == name:
+                v = st.value
+            elif isinstance(st, (ast.For, ast.comprehension)) and any(isinstance(x, ast.Name) and x.id == name for x in ast.walk(st.target)):
+                v = st.iter
+            if v is not None and (best is None or ln > best[0]):
+                best = (ln, v)
+        return best
+
+    def is_restored(fn, q: str, value: ast.AST, at: int) -> bool:
+        seen: Set[str] = set()
+        todo = [(n.id, at) for n in ast.walk(value) if isinstance(n, ast.Name)]
+        while todo:
+            nm, ln = todo.pop()
+            if nm in seen or len(seen) > 40:
+                continue
+            seen.add(nm)
+            if any(nm == r and rl < at for r, rl in restored.get(q, [])):
+                return True
+            d = closest_def(fn, nm, ln)
+            if d is not None:
+                todo += [(n.id, d[0]) for n in ast.walk(d[1]) if isinstance(n, ast.Name)]
+        return False
+
+    n = 0
+    # (a) PARAMETER statement: what is stored in param_dict
+    fn = py.func("FortranContainer.__init__")
+    q = py.qualname(fn)
+    for st in ast.walk(fn):
+        if isinstance(st, ast.Assign) and any(isinstance(t, ast.Subscript) and ast.unparse(t.value) == "self.param_dict" for t in st.targets):
+            n += 1
+            ok = is_restored(fn, q, st.value, st.lineno)
+            rep.ob("PARAMETER statement: the stored value has its literals put back", ok,
+                   "restored before it is stored" if ok else
+                   f"`{ast.unparse(st)[:70]}` stores the masked text: `parameter (s = 'ab,cd')` is documented with the initial value \"0\"",
+                   py.nloc(st), nontrivial=not ok)
+    # (b) attributes written inline in a declaration
+    lv = py.func("sourceform.line_to_variables")
+    q = py.qualname(lv)
+    for c in py.walk_calls(lv):
+        if isinstance(c.func, ast.Attribute) and c.func.attr == "append" and isinstance(c.func.value, ast.Name) and c.args:
+            lst = c.func.value.id
+            # is this list handed to the variable constructor?
+            used = any(isinstance(k, ast.Call) and call_name(k) == "FortranVariable" and any(
+                isinstance(x, ast.Name) and x.id == lst for a in k.args + [kw.value for kw in k.keywords] for x in ast.walk(a))
+                for k in py.walk_calls(lv))
+            if not used:
+                continue
+            n += 1
+            ok = is_restored(lv, q, c.args[0], c.lineno)
+            rep.ob("declaration attributes have their literals put back", ok,
+                   "restored before the attribute is kept" if ok else
+                   f"`{ast.unparse(c)[:60]}` keeps the masked attribute text: `integer, bind(C, name=\"my_var\") :: iv` is documented as "
+                   f"`bind(C, name=\"0\")`", py.nloc(c), nontrivial=not ok)
+    if n < 2:
+        raise AnalysisError("PARAMETER-statement store or inline attribute store not found")
+
 RULES = [
     RuleSpec("C18.R5", r5_selector_regexes, "kind/len selector regexes capture the whole expression", floor=2),
     RuleSpec("C18.R4", r4_literals_and_argument_attributes, "literal case is preserved; argument attributes are complete", floor=3),
@@ -578,5 +706,6 @@ RULES = [
     RuleSpec("C18.R7", r7_pure_properties, "display properties are free of side effects", floor=8),
     RuleSpec("C18.R9", r9_html_properties_escape, "HTML-valued declaration properties escape the text they embed", floor=2),
     RuleSpec("C18.R10", r10_initial_value_is_whole, "the initial value is everything after the first `=`", floor=1),
+    RuleSpec("C18.R11", r11_displayed_text_is_unmasked, "text kept for display has its literals put back", floor=2),
     RuleSpec("C18.R8", r8_literal_continuation, "continued literals keep their blanks (shared with C02.R5)", floor=3),
 ]
